@@ -64,6 +64,7 @@ func HarnessC13Order() {
 	wSymMeta = verif.Param("symMeta", 0) == 1
 	wLeafPkgs = verif.Param("leaf", 0) == 1
 	wKindMask = verif.Param("kinds", 0)
+	wPrunedNoise = verif.Param("pruned", 0) == 1
 	regAdds := verif.Param("regAdds", 0) == 1
 	if regAdds {
 		wNReg = 1
